@@ -5,6 +5,7 @@ package c12
 import (
 	"bytes"
 	"fmt"
+	"runtime/debug"
 	"sort"
 	"strings"
 	"testing"
@@ -25,6 +26,20 @@ import (
 //
 // Known defects rediscovered here get the keys KeyF1 / KeyF10; the key is computed from the input
 // shape (f1Cause / f10Cause), never from the symptom alone.
+//
+// Overlapping re-partitions (fragments of two different partitions of one message mixed) are outside
+// the property's quantifier and are neither generated nor asserted.
+
+// Rule is the enumeration rule reported with the evidence.
+const Rule = "sender case = body length L (loops every MTU 1..66; one evaluation per (L, MTU)); receiver case = " +
+	"(family, record packing, message length(s), composition(s) of each length into ordered fragment sizes, zero-length group), " +
+	"where group z0 has no zero-length fragment and group z1-2 loops over every choice of one or two fragment boundaries " +
+	"(offsets 0..L) that receive a zero-length fragment; inside a case every subset of the distinct fragments is duplicated once " +
+	"(as long as arrivals <= the stated cap) and EVERY distinct arrival permutation of the resulting multiset is executed on a fresh " +
+	"FragmentBuffer (Pop until nil after each Push), then every fragment is retransmitted alone and all together; one evaluation = one " +
+	"arrival sequence under one packing (each / pair / all; packings that coincide for 1-2 arrivals are run once); an evaluation is " +
+	"non-trivial iff it has >= 2 arrivals (>= 2 fragments, or a zero-length or duplicated fragment besides the message's own), " +
+	"sender: iff the message is split into >= 2 fragments or is empty"
 
 const (
 	KeyF1  = "F1-pop-nil-deref"
@@ -51,7 +66,8 @@ type shape struct {
 }
 
 type viol struct {
-	kind, key, text string
+	kind, key string
+	text      func() string // built only for the first violation of each key in a case
 }
 
 type execCtx struct {
@@ -62,7 +78,14 @@ type execCtx struct {
 	recEnc  [][]byte // single-fragment record per item
 	model   *Model
 	recSeq  uint64
+	// retransmission phase: every fragment alone, then all fragments in one record
+	retxRecs [][]byte
 
+	*acc
+}
+
+// acc accumulates the results of every shape executed inside one case.
+type acc struct {
 	evals, distinct, pushes, pops int
 	counters                      map[string]int
 	viols                         map[string]*viol
@@ -70,10 +93,15 @@ type execCtx struct {
 	sample                        any
 }
 
-func newExec(sh *shape) *execCtx {
-	x := &execCtx{sh: sh, model: NewModel(sh.lens), counters: map[string]int{}, viols: map[string]*viol{}}
+func newAcc() *acc { return &acc{counters: map[string]int{}, viols: map[string]*viol{}} }
+
+func newExec(sh *shape, a *acc) *execCtx {
+	x := &execCtx{sh: sh, model: NewModel(sh.lens), acc: a}
 	for i, l := range sh.lens {
 		m := NewMsg(sh.base, i, l)
+		if sh.mode != modeEach {
+			m.Epoch = 1 // a record has one epoch: messages that share records share the epoch
+		}
 		x.msgs = append(x.msgs, m)
 		x.want = append(x.want, EncodeWhole(m))
 	}
@@ -81,6 +109,12 @@ func newExec(sh *shape) *execCtx {
 		x.fragEnc = append(x.fragEnc, EncodeFragment(x.msgs[f.Msg], f.Off, f.Len))
 		x.recEnc = append(x.recEnc, EncodeRecord(x.msgs[f.Msg].Epoch, uint64(i), x.fragEnc[i]))
 	}
+	var all []byte
+	for it := range sh.frs {
+		x.retxRecs = append(x.retxRecs, x.recEnc[it])
+		all = append(all, x.fragEnc[it]...)
+	}
+	x.retxRecs = append(x.retxRecs, EncodeRecord(1, 5000, all))
 	return x
 }
 
@@ -135,7 +169,7 @@ func (x *execCtx) tags(order []int) string {
 
 // f10Cause: among the first upto arrivals, a zero-length fragment of message msg sits at an offset
 // k < len at which a non-empty fragment starts, and it arrived before that fragment.
-func (x *execCtx) f10Cause(order []int, upto, msg int) (cause, interior bool) {
+func (x *execCtx) f10Cause(order []int, upto, msg int) (cause, interior bool, at []int) {
 	L := x.sh.lens[msg]
 	firstZero := map[int]int{}
 	firstReal := map[int]int{}
@@ -155,12 +189,14 @@ func (x *execCtx) f10Cause(order []int, upto, msg int) (cause, interior bool) {
 	for k, z := range firstZero {
 		if r, ok := firstReal[k]; ok && z < r {
 			cause = true
+			at = append(at, k)
 			if k > 0 {
 				interior = true
 			}
 		}
 	}
-	return cause, interior
+	sort.Ints(at)
+	return cause, interior, at
 }
 
 // f1Cause: the message at the delivery cursor has length 0, fragments of it arrived, none at offset 0.
@@ -188,8 +224,14 @@ func (x *execCtx) mk(kind, key string, order []int, upto int, detail string) *vi
 	if key == "" {
 		key = kind + "/" + x.tags(order)
 	}
-	return &viol{kind: kind, key: key, text: fmt.Sprintf("%s: family=%s base=%d lens=%v packing=%s arrivals=[%s] after %d arrival(s): %s",
-		kind, x.sh.family, x.sh.base, x.sh.lens, x.sh.mode, x.render(order), upto, detail)}
+	if v, ok := x.viols[key]; ok {
+		return v // same cause already recorded in this case: counted, not rendered again
+	}
+	arrivals := x.render(order)
+	return &viol{kind: kind, key: key, text: func() string {
+		return fmt.Sprintf("%s: family=%s base=%d lens=%v packing=%s arrivals=[%s] after %d arrival(s): %s",
+			kind, x.sh.family, x.sh.base, x.sh.lens, x.sh.mode, arrivals, upto, detail)
+	}}
 }
 
 func short(b []byte) string {
@@ -308,17 +350,21 @@ func (x *execCtx) runOrder(order []int) (v *viol) {
 						x.counters["stray_family_late_delivery"]++
 						break
 					}
-					key := ""
-					if cause, interior := x.f10Cause(order, upto, x.model.Next); cause {
+					key, why := "", ""
+					if cause, interior, at := x.f10Cause(order, upto, x.model.Next); cause {
 						key = KeyF10
+						why = fmt.Sprintf(" (a zero-length fragment at offset %v arrived before the non-empty fragment that starts there)", at)
 						if interior {
 							x.counters["F10_interior_offset"]++
 						} else {
 							x.counters["F10_offset0_only"]++
 						}
 					}
+					if v, ok := x.viols[key]; ok && key != "" {
+						return v
+					}
 					return x.mk("complete-message-not-surfaced", key, order, upto,
-						fmt.Sprintf("reference has full byte coverage of message_seq %d (and all earlier ones are delivered) but Pop returned nil", x.msgs[x.model.Next].Seq))
+						fmt.Sprintf("reference has full byte coverage of message_seq %d (and all earlier ones are delivered) but Pop returned nil%s", x.msgs[x.model.Next].Seq, why))
 				}
 				break
 			}
@@ -352,15 +398,9 @@ func (x *execCtx) runOrder(order []int) (v *viol) {
 			fmt.Sprintf("size=%d count=%d messages=%d cursor=%d (want 0 0 0 %d)", size, count, msgs, cur, wantCur))
 	}
 	// Retransmission of every fragment of the delivered messages: one by one, then all in one record.
-	var all []byte
-	recs := make([][]byte, 0, len(sh.frs)+2)
-	for it := range sh.frs {
-		recs = append(recs, x.recEnc[it])
-		all = append(all, x.fragEnc[it]...)
-	}
-	recs = append(recs, EncodeRecord(0, 5000, all))
+	recs := x.retxRecs
 	if staleRec != nil {
-		recs = append(recs, staleRec)
+		recs = append(recs[:len(recs):len(recs)], staleRec)
 	}
 	for ri, rec := range recs {
 		isHS, isRetx, err := fb.Push(rec)
@@ -390,6 +430,12 @@ func (x *execCtx) record(v *viol) {
 	}
 }
 
+// skippedPacking: packings that coincide with another packing for this many arrivals are not run twice
+// (one arrival: all three coincide; two arrivals: "pair" and "all" coincide).
+func skippedPacking(mode string, arrivals int) bool {
+	return (mode != modeEach && arrivals < 2) || (mode == modePair && arrivals <= 2)
+}
+
 // allOrders runs every distinct permutation of the multiset mult over the items of the shape.
 func (x *execCtx) allOrders(mult []int) {
 	var order []int
@@ -399,8 +445,7 @@ func (x *execCtx) allOrders(mult []int) {
 		}
 	}
 	n := len(order)
-	// Packings that coincide with another packing for this many arrivals are not run twice.
-	if (x.sh.mode != modeEach && n < 2) || (x.sh.mode == modePair && n <= 2) {
+	if skippedPacking(x.sh.mode, n) {
 		return
 	}
 	for {
@@ -437,7 +482,7 @@ func (x *execCtx) allDupsAndOrders(cap int) {
 	}
 }
 
-func (x *execCtx) outcome() run.Outcome {
+func (x *acc) outcome() run.Outcome {
 	o := run.Outcome{Class: "held", Evals: x.evals, Distinct: x.distinct, NonTrivial: x.distinct > 0, Sample: x.sample,
 		Counters: x.counters}
 	if x.evals == 0 {
@@ -446,7 +491,6 @@ func (x *execCtx) outcome() run.Outcome {
 	}
 	x.counters["pushes"] += x.pushes
 	x.counters["pops"] += x.pops
-	x.counters["arrival_sequences:"+x.sh.family] += x.evals
 	if len(x.viols) > 0 {
 		// A case reports one violation: unknown causes take precedence over the known F1/F10.
 		pick := ""
@@ -460,7 +504,7 @@ func (x *execCtx) outcome() run.Outcome {
 			pick = x.violOrder[0]
 		}
 		v := x.viols[pick]
-		o.Violation, o.Key, o.Class = v.text, v.key, "VIOLATION:"+v.kind
+		o.Violation, o.Key, o.Class = v.text(), v.key, "VIOLATION:"+v.kind
 		if len(x.viols) > 1 {
 			keys := append([]string(nil), x.violOrder...)
 			sort.Strings(keys)
@@ -519,37 +563,121 @@ func withZeros(msg int, c []int, zmask int) []Frag {
 	return frs
 }
 
+// capz is the maximum number of arrivals (fragments + duplicates) indexed by the number of zero-length
+// fragment positions in the shape; 0 disables that number of zero-length fragments.
+type capz [3]int
+
 type bounds struct {
-	L1, Z1, Cap1       int // one message: max length, max zero-length fragments, max arrivals
-	L1p, Cap1p         int // one message, packed records (pair / all)
-	L2, Z2, Cap2       int // two messages: max length of each, zero-length fragments overall, max arrivals
-	L2p, Cap2p         int
-	LA, ZA, CapA       int // after AdvanceTo (base 3), one message
-	LA2, CapA2         int // after AdvanceTo, two messages
-	LH, CapH           int // stray zero-length fragments beyond the message end
-	TxMaxLen, TxMaxMTU int
+	L1       int  // one message: max length
+	Cap1     capz // one fragment per record
+	Cap1p    capz // packed records (pair / all)
+	L2       int  // two messages: max length of each
+	Cap2     capz
+	Cap2p    capz
+	LA       int // after AdvanceTo (base 3), one message
+	CapA     capz
+	LA2      int // after AdvanceTo, two messages
+	CapA2    capz
+	LH, CapH int // stray zero-length fragments beyond the message end
+	TxMaxLen int
+	TxMaxMTU int
 }
 
 func getBounds(thorough bool) bounds {
 	if thorough {
-		return bounds{L1: 7, Z1: 2, Cap1: 9, L1p: 6, Cap1p: 8, L2: 4, Z2: 1, Cap2: 8, L2p: 3, Cap2p: 8,
-			LA: 5, ZA: 1, CapA: 7, LA2: 3, CapA2: 7, LH: 3, CapH: 7, TxMaxLen: 64, TxMaxMTU: 66}
+		return bounds{L1: 7, Cap1: capz{9, 8, 7}, Cap1p: capz{8, 7, 6},
+			L2: 4, Cap2: capz{8, 7, 0}, Cap2p: capz{7, 6, 0},
+			LA: 5, CapA: capz{7, 7, 0}, LA2: 3, CapA2: capz{7, 6, 0}, LH: 3, CapH: 7, TxMaxLen: 64, TxMaxMTU: 66}
 	}
-	return bounds{L1: 6, Z1: 2, Cap1: 8, L1p: 5, Cap1p: 7, L2: 3, Z2: 1, Cap2: 7, L2p: 3, Cap2p: 6,
-		LA: 4, ZA: 1, CapA: 6, LA2: 2, CapA2: 6, LH: 2, CapH: 5, TxMaxLen: 64, TxMaxMTU: 66}
+	return bounds{L1: 6, Cap1: capz{8, 7, 7}, Cap1p: capz{7, 6, 5},
+		L2: 3, Cap2: capz{7, 6, 0}, Cap2p: capz{6, 5, 0},
+		LA: 4, CapA: capz{6, 6, 0}, LA2: 2, CapA2: capz{6, 5, 0}, LH: 2, CapH: 5, TxMaxLen: 64, TxMaxMTU: 66}
 }
 
-func rxCase(id string, sh shape, cap int) run.Case {
-	return run.Case{ID: id, Run: func(t *testing.T) run.Outcome {
-		sh := sh
-		x := newExec(&sh)
-		x.allDupsAndOrders(cap)
-		return x.outcome()
-	}}
+func (c capz) String() string {
+	return fmt.Sprintf("arrivals<=%d/%d/%d with 0/1/2 zero-length fragments", c[0], c[1], c[2])
+}
+
+func popcount(x int) int {
+	n := 0
+	for ; x != 0; x &= x - 1 {
+		n++
+	}
+	return n
+}
+
+// caseCost holds the estimated the work of a receiver case (arrivals pushed over all its sequences). It is used
+// only to order the case list so that the driver's idx % nshards split is balanced.
+var caseCost = map[string]float64{}
+
+func estimate(sh shape, cap int) float64 {
+	n := len(sh.frs)
+	total := 0.0
+	for d := 0; d <= n && n+d <= cap; d++ {
+		if skippedPacking(sh.mode, n+d) {
+			continue
+		}
+		perms := 1.0
+		for i := 2; i <= n+d; i++ {
+			perms *= float64(i)
+		}
+		for i := 0; i < d; i++ {
+			perms /= 2
+		}
+		choose := 1.0
+		for i := 0; i < d; i++ {
+			choose = choose * float64(n-i) / float64(i+1)
+		}
+		total += choose * perms * float64(2*n+d+1)
+	}
+	for _, f := range sh.frs {
+		if f.Len == 0 && f.Off < sh.lens[f.Msg] {
+			return 4 * total // zero-length fragment at a fragment start: violating cases are re-executed 5x by the runner
+		}
+	}
+	return total
+}
+
+// job is one shape with its arrivals cap; a case runs one or more jobs.
+type job struct {
+	sh  shape
+	cap int
+}
+
+func rxCase(id string, jobs []job) []run.Case {
+	cost := 0.0
+	for _, j := range jobs {
+		cost += estimate(j.sh, j.cap)
+	}
+	if cost == 0 {
+		return nil // nothing to run (every arrival count of this shape coincides with another packing)
+	}
+	caseCost[id] = cost
+	return []run.Case{{ID: id, Run: func(t *testing.T) run.Outcome {
+		a := newAcc()
+		for _, j := range jobs {
+			sh := j.sh
+			e0, p0 := a.evals, a.pushes
+			newExec(&sh, a).allDupsAndOrders(j.cap)
+			a.counters["arrival_sequences:"+sh.family+"/"+sh.mode] += a.evals - e0
+			a.counters["pushes:"+sh.family+"/"+sh.mode] += a.pushes - p0
+		}
+		return a.outcome()
+	}}}
+}
+
+// zeroGroups splits the zero-length-fragment choices of a composition into the two cases "z0" (no
+// zero-length fragment) and "z1-2" (every choice of one or two boundary positions).
+func zeroGroups(npos int) (names []string, groups [][]int) {
+	names, groups = []string{"z0"}, [][]int{{0}}
+	if rest := zeroChoices(npos, 2)[1:]; len(rest) > 0 {
+		names, groups = append(names, "z1-2"), append(groups, rest)
+	}
+	return names, groups
 }
 
 // oneMsgCases: family/packing/L/composition/zero-positions; inside: dup subsets x permutations.
-func oneMsgCases(family string, base uint16, modes []string, maxL, zmax, cap int) []run.Case {
+func oneMsgCases(family string, base uint16, modes []string, maxL int, caps capz) []run.Case {
 	var cases []run.Case
 	for _, mode := range modes {
 		for L := 0; L <= maxL; L++ {
@@ -558,14 +686,22 @@ func oneMsgCases(family string, base uint16, modes []string, maxL, zmax, cap int
 				if L > 0 {
 					npos = len(c) + 1
 				}
-				for _, zm := range zeroChoices(npos, zmax) {
-					frs := withZeros(0, c, zm)
-					if len(frs) > cap {
-						continue
+				names, groups := zeroGroups(npos)
+				for gi, group := range groups {
+					var jobs []job
+					for _, zm := range group {
+						frs := withZeros(0, c, zm)
+						cap := caps[popcount(zm)]
+						if len(frs) > cap {
+							continue
+						}
+						sortFrags(frs)
+						jobs = append(jobs, job{shape{family: family, base: base, lens: []int{L}, frs: frs, strict: true, mode: mode}, cap})
 					}
-					sortFrags(frs)
-					id := fmt.Sprintf("%s/%s/L%d/c=%s/z=%s", family, mode, L, CompString(c), zString(zm, npos))
-					cases = append(cases, rxCase(id, shape{family: family, base: base, lens: []int{L}, frs: frs, strict: true, mode: mode}, cap))
+					if len(jobs) > 0 {
+						id := fmt.Sprintf("%s/%s/L%d/c=%s/%s", family, mode, L, CompString(c), names[gi])
+						cases = append(cases, rxCase(id, jobs)...)
+					}
 				}
 			}
 		}
@@ -574,7 +710,7 @@ func oneMsgCases(family string, base uint16, modes []string, maxL, zmax, cap int
 }
 
 // twoMsgCases: two interleaved messages (message_seq base, base+1).
-func twoMsgCases(family string, base uint16, modes []string, maxL, zmax, cap int) []run.Case {
+func twoMsgCases(family string, base uint16, modes []string, maxL int, caps capz) []run.Case {
 	var cases []run.Case
 	for _, mode := range modes {
 		for LA := 0; LA <= maxL; LA++ {
@@ -588,14 +724,22 @@ func twoMsgCases(family string, base uint16, modes []string, maxL, zmax, cap int
 						if LB > 0 {
 							nb = len(cb) + 1
 						}
-						for _, zm := range zeroChoices(na+nb, zmax) {
-							frs := append(withZeros(0, ca, zm&(1<<na-1)), withZeros(1, cb, zm>>na)...)
-							if len(frs) > cap {
-								continue
+						names, groups := zeroGroups(na + nb)
+						for gi, group := range groups {
+							var jobs []job
+							for _, zm := range group {
+								frs := append(withZeros(0, ca, zm&(1<<na-1)), withZeros(1, cb, zm>>na)...)
+								cap := caps[popcount(zm)]
+								if len(frs) > cap {
+									continue
+								}
+								sortFrags(frs)
+								jobs = append(jobs, job{shape{family: family, base: base, lens: []int{LA, LB}, frs: frs, strict: true, mode: mode}, cap})
 							}
-							sortFrags(frs)
-							id := fmt.Sprintf("%s/%s/LA%d/ca=%s/LB%d/cb=%s/z=%s", family, mode, LA, CompString(ca), LB, CompString(cb), zString(zm, na+nb))
-							cases = append(cases, rxCase(id, shape{family: family, base: base, lens: []int{LA, LB}, frs: frs, strict: true, mode: mode}, cap))
+							if len(jobs) > 0 {
+								id := fmt.Sprintf("%s/%s/LA%d/ca=%s/LB%d/cb=%s/%s", family, mode, LA, CompString(ca), LB, CompString(cb), names[gi])
+								cases = append(cases, rxCase(id, jobs)...)
+							}
 						}
 					}
 				}
@@ -623,7 +767,7 @@ func strayCases(maxL, cap int) []run.Case {
 				}
 				sortFrags(frs)
 				id := fmt.Sprintf("rxstray/each/L%d/c=%s/s=%s", L, CompString(c), zString(smask, 2))
-				cases = append(cases, rxCase(id, shape{family: "rxstray", lens: []int{L}, frs: frs, strict: false, mode: modeEach}, cap))
+				cases = append(cases, rxCase(id, []job{{shape{family: "rxstray", lens: []int{L}, frs: frs, strict: false, mode: modeEach}, cap}})...)
 			}
 		}
 	}
@@ -757,16 +901,25 @@ func allCases(b bounds) []run.Case {
 	var cases []run.Case
 	cases = append(cases, txCases(b)...)
 	cases = append(cases, strayCases(b.LH, b.CapH)...)
-	cases = append(cases, oneMsgCases("rx1", 0, []string{modeEach}, b.L1, b.Z1, b.Cap1)...)
-	cases = append(cases, oneMsgCases("rx1", 0, []string{modePair, modeAll}, b.L1p, b.Z1, b.Cap1p)...)
-	cases = append(cases, twoMsgCases("rx2", 0, []string{modeEach}, b.L2, b.Z2, b.Cap2)...)
-	cases = append(cases, twoMsgCases("rx2", 0, []string{modePair, modeAll}, b.L2p, b.Z2, b.Cap2p)...)
-	cases = append(cases, oneMsgCases("rx1adv", 3, []string{modeEach}, b.LA, b.ZA, b.CapA)...)
-	cases = append(cases, twoMsgCases("rx2adv", 3, []string{modeEach}, b.LA2, b.ZA, b.CapA2)...)
+	cases = append(cases, oneMsgCases("rx1", 0, []string{modeEach}, b.L1, b.Cap1)...)
+	cases = append(cases, oneMsgCases("rx1", 0, []string{modePair, modeAll}, b.L1, b.Cap1p)...)
+	cases = append(cases, twoMsgCases("rx2", 0, []string{modeEach}, b.L2, b.Cap2)...)
+	cases = append(cases, twoMsgCases("rx2", 0, []string{modePair, modeAll}, b.L2, b.Cap2p)...)
+	cases = append(cases, oneMsgCases("rx1adv", 3, []string{modeEach}, b.LA, b.CapA)...)
+	cases = append(cases, twoMsgCases("rx2adv", 3, []string{modeEach}, b.LA2, b.CapA2)...)
+	// Deterministic order: most expensive first (ties by ID) so that round-robin sharding is balanced.
+	sort.SliceStable(cases, func(i, j int) bool {
+		ci, cj := caseCost[cases[i].ID], caseCost[cases[j].ID]
+		if ci != cj {
+			return ci > cj
+		}
+		return cases[i].ID < cases[j].ID
+	})
 	return cases
 }
 
 func TestC12(t *testing.T) {
+	debug.SetGCPercent(800) // the buffers are tiny and short-lived; spend the time on cases, not on GC cycles
 	env := run.GetEnv()
 	b := getBounds(env.Thorough())
 	cases := allCases(b)
@@ -778,11 +931,48 @@ func TestC12(t *testing.T) {
 		seen[c.ID] = true
 	}
 	run.Main(t, "C12", cases, map[string]any{
+		"rule":                       Rule,
 		"sender":                     fmt.Sprintf("body length 0..%d x MTU 1..%d", b.TxMaxLen, b.TxMaxMTU),
-		"rx1_one_message":            fmt.Sprintf("len<=%d, every composition, <=%d zero-length fragments at boundaries, every dup subset, arrivals<=%d, every permutation; packed records: len<=%d arrivals<=%d", b.L1, b.Z1, b.Cap1, b.L1p, b.Cap1p),
-		"rx2_two_messages":           fmt.Sprintf("each len<=%d, every pair of compositions, <=%d zero-length fragment, every dup subset, arrivals<=%d, every interleaving; packed: len<=%d arrivals<=%d", b.L2, b.Z2, b.Cap2, b.L2p, b.Cap2p),
-		"after_AdvanceTo_3":          fmt.Sprintf("one message len<=%d arrivals<=%d; two messages len<=%d arrivals<=%d", b.LA, b.CapA, b.LA2, b.CapA2),
+		"rx1_one_message":            fmt.Sprintf("len<=%d, every composition, zero-length fragments at every boundary, every dup subset, every permutation; one fragment per record: %v; packed (pair, all): %v", b.L1, b.Cap1, b.Cap1p),
+		"rx2_two_messages":           fmt.Sprintf("each len<=%d, every pair of compositions, every dup subset, every interleaving; one per record: %v; packed: %v", b.L2, b.Cap2, b.Cap2p),
+		"after_AdvanceTo_3":          fmt.Sprintf("one message len<=%d %v; two messages len<=%d %v", b.LA, b.CapA, b.LA2, b.CapA2),
 		"stray_zero_length_offsets":  fmt.Sprintf("len<=%d + zero-length fragments at offsets len+1, len+2; arrivals<=%d (safety and no-panic only)", b.LH, b.CapH),
 		"retransmission_after_every": "each fragment alone, then all fragments in one record",
 	})
+}
+
+// TestC12Keying pins the cause keys to their input shapes on the smallest inputs: the keys F1 / F10 may
+// only appear on these shapes, and an execution without the cause never gets them. It passes whether or
+// not the defects are present in the tree (a fixed tree yields no violation at all).
+func TestC12Keying(t *testing.T) {
+	type tc struct {
+		name  string
+		sh    shape
+		order []int
+		allow string // the only key this input may produce
+	}
+	one := func(family string, L int, frs []Frag, strict bool) shape {
+		return shape{family: family, lens: []int{L}, frs: frs, strict: strict, mode: modeEach}
+	}
+	cases := []tc{
+		{"F1 minimal: empty message, only fragment has offset 1", one("rxstray", 0, []Frag{{0, 0, 0}, {0, 1, 0}}, false), []int{1, 0}, KeyF1},
+		{"empty message, valid fragment first, stray later", one("rxstray", 0, []Frag{{0, 0, 0}, {0, 1, 0}}, false), []int{0, 1}, ""},
+		{"F10 minimal (offset 0): [0,0) before [0,1)", one("rx1", 1, []Frag{{0, 0, 0}, {0, 0, 1}}, true), []int{0, 1}, KeyF10},
+		{"F10 minimal (interior): [0,1) [1,1) [1,2)", one("rx1", 2, []Frag{{0, 0, 1}, {0, 1, 0}, {0, 1, 1}}, true), []int{0, 1, 2}, KeyF10},
+		{"no cause: zero-length fragment after the real one", one("rx1", 2, []Frag{{0, 0, 1}, {0, 1, 0}, {0, 1, 1}}, true), []int{0, 2, 1}, ""},
+		{"no cause: zero-length fragment at the end offset first", one("rx1", 2, []Frag{{0, 0, 2}, {0, 2, 0}}, true), []int{1, 0}, ""},
+	}
+	for _, c := range cases {
+		sh := c.sh
+		x := newExec(&sh, newAcc())
+		v := x.runOrder(c.order)
+		switch {
+		case v == nil:
+			t.Logf("%s: held", c.name)
+		case v.key == c.allow && c.allow != "":
+			t.Logf("%s: known defect reproduced, key=%s: %s", c.name, v.key, v.text())
+		default:
+			t.Errorf("%s: unexpected violation key=%q: %s", c.name, v.key, v.text())
+		}
+	}
 }
